@@ -320,7 +320,9 @@ func (vm *Type) Run(retResult bool) (value.Type, error) {
 				val = vm.fetch(instr.Src0(), instr.Src0Addr(), m, ds)
 			}
 
-			if val.IsNil() {
+			// loading the temp register is not an assignment: a nil operand is
+			// reported by the operator that uses it, after the other operand was evaluated
+			if val.IsNil() && instr.Src1() != bytecode.AddrTmp {
 				return vm.dumpStack(ctxp, ip, value.ErrNil, val)
 			}
 
